@@ -435,7 +435,14 @@ def h5_md(draw, n):
 
 @st.composite
 def h5_table_specs(draw, tier="quick", allow_empty_axis=False, values="wild",
-                   ids="unicode", poke=False, shape=None):
+                   ids="unicode", poke=False, shape=None, big=False):
+    if big and shape is None and \
+            draw(st.sampled_from([False] * 29 + [True])):
+        # one axis past 256 entries (block-wise writers / readers)
+        spec = draw(big_specs(md="simple", values="dyadic"))
+        spec.update({"shape": [len(spec["obs"]), len(spec["samp"])],
+                     "table_id": None, "obs_gmd": None, "samp_gmd": None})
+        return spec
     if shape is not None:
         n, m = shape
     elif allow_empty_axis and draw(st.integers(0, 5)) == 0:
